@@ -15,12 +15,20 @@ def bounded_histories(tier, seed):
     from pvc import bounded
     env = {"C24_LEN": "3", "C24_RANDOM": "300"} if tier == "quick" else {"C24_LEN": "4", "C24_RANDOM": "3000"}
     return [bounded.run(PROPERTY, "tag-operation-histories", env=env, timeout=3000,
-                        rule="every history of <= 3 (quick) / 4 (thorough) tag commands (add a pair, update a key to a pair, remove a pair, remove a key) over 2 keys x 2 JSON values on one entity, plus seeded random histories of "
+                        rule="every history of <= 3 (quick) / 4 (thorough) tag commands (add a pair, update a key to a pair, remove a pair, remove a key) over 2 keys x 2 JSON values on one entity, commands with several arguments (two pairs at once; a pair and a key) after every pair of adds, plus seeded random histories of "
                              "5..7 commands over two entities, executed on a real in-memory backend the way the CLI commands call it; after every command the current tags of each entity must equal those of a "
                              "reference key-value model and the tag-edit graph must be acyclic; a history counts as non-trivial when it contains a removal or update of an existing pair")]
 
 
-EXTRA_CHECKS = [bounded_histories]
+def bounded_null_values(tier, seed):
+    from pvc import bounded
+    return [bounded.run(PROPERTY, "null-valued-pairs", env={"C24_MODE": "null-ok", "C24_LEN": "3", "C24_RANDOM": "100"}, timeout=3000,
+                        rule="the same histories with JSON null among the values (add / update / remove a key / remove a non-null pair); the removal of a null-valued pair is the separate obligation below"),
+            bounded.run(PROPERTY, "rm-of-a-null-valued-pair", env={"C24_MODE": "null-rm"}, timeout=600,
+                        rule="histories that end with `tag rm ENTITY key=null` on an entity where the pair (key, null) is current: the pair must not be current afterwards")]
+
+
+EXTRA_CHECKS = [bounded_histories, bounded_null_values]
 EXPECTED_MIN_OBLIGATIONS = 0
 TRUSTED = ["the reference model written for this check (add inserts pairs, update replaces all values of the given keys, remove deletes pairs or whole keys)"]
 ASSUMPTIONS = ["bounded: nothing is proved; histories longer than the bound, other value types, concurrent writers and other entity types are not explored",
